@@ -1256,7 +1256,7 @@ class n0dict(n0dict_):
                     #================================
                     # FOUND: the last is n0list
                     #================================
-                    return parent_node, f"[{node_index_int}]", parent_node[node_index_int], xpath_found_str, None
+                    return parent_node, f"[{node_index_int}]", parent_node[node_index_int], f"{xpath_found_str}[{node_index_int}]", None
                 else:
                     #*******************************
                     # Deeper: any type under n0dict
